@@ -153,6 +153,20 @@ def gen_special(tier, seed):
                 yield {'south': False, 'zone': z, 'e1': e1, 'n1': round(float(n_[0]), 4), 'brgs': brgs[::2] + [60.0], 'lengths': [1e4, 1e5]}
 
 
+def gen_lengths(tier, seed):
+    """a sweep of line lengths between the decades (a shortcut 'for lines under 25 km' or 'under 40 km' opens a window there), at the
+    zone edges and at the centre, along and across the central meridian"""
+    use_ell('grs80')
+    lens = [2.0e3, 5.0e3, 1.5e4, 2.0e4, 2.2e4, 2.4e4, 2.6e4, 3.0e4, 3.4e4, 3.7e4, 3.95e4, 4.2e4, 5.0e4, 7.0e4]
+    brgs = [0.0, 30.0, 60.0, 90.0, 120.0, 150.0, 180.0, 225.0, 270.0, 315.0]
+    for south, lat in ((True, -36.0), (False, 52.0), (True, -8.0)):
+        for z in (55, 31):
+            e_, n_, _, _ = to_grid(lat, cm(z), z, south)
+            for e1 in (1.5e5, 2.4e5, 5.0e5, 7.6e5, 8.5e5):
+                for part in (brgs[:3], brgs[3:6], brgs[6:]):
+                    yield {'south': south, 'zone': z, 'e1': e1, 'n1': round(float(n_[0]), 4), 'brgs': part, 'lengths': lens}
+
+
 def gen_both(tier, seed):
     # identical (zone, easting, northing) interpreted in the southern and then the northern hemisphere (and the reverse)
     # inside one process
@@ -335,7 +349,7 @@ from gpmc import callforms as _cf
 from gpmc import interp as _ip
 
 
-SUBCHECKS = [Sub('grid_geodesic', gen, ev, chunk=1, floor=500, guard=True, envs=8), Sub('ellipsoids', gen_ell, ev, chunk=1, floor=300, guard=True), Sub('special_zones', gen_special, ev, chunk=1, floor=100, guard=True), Sub('both_hemispheres', gen_both, ev_both, chunk=1, floor=100, guard=True, envs=4), Sub('threads', _tg, _te, chunk=1, floor=3, poison=False, fresh=True, timeout=3600), Sub('callforms', *_cf.make('C14', 'geodesy'), chunk=1, floor=1, guard=True), Sub('interpreter', *_ip.make('C14', 'geodesy'), chunk=1, floor=5, poison=False)]
+SUBCHECKS = [Sub('grid_geodesic', gen, ev, chunk=1, floor=500, guard=True, envs=8), Sub('ellipsoids', gen_ell, ev, chunk=1, floor=300, guard=True), Sub('special_zones', gen_special, ev, chunk=1, floor=100, guard=True), Sub('lengths', gen_lengths, ev, chunk=1, floor=300, guard=True), Sub('both_hemispheres', gen_both, ev_both, chunk=1, floor=100, guard=True, envs=4), Sub('threads', _tg, _te, chunk=1, floor=3, poison=False, fresh=True, timeout=3600), Sub('callforms', *_cf.make('C14', 'geodesy'), chunk=1, floor=1, guard=True), Sub('interpreter', *_ip.make('C14', 'geodesy'), chunk=1, floor=5, poison=False)]
 
 
 def bounds(tier, seed):
